@@ -149,3 +149,10 @@ Fixpoint d_pop {V : Type} (d : dict V) (k : str) : dict V :=           (* d.pop(
 
 (* row.index(char); None = ValueError *)
 Definition row_index (c : N) (row : str) : option Z := index_of c row 0.
+
+(* l.pop(): the list without its last element and that element; None = IndexError *)
+Definition lpop {X : Type} (l : list X) : option (list X * X) :=
+  match rev l with
+  | [] => None
+  | x :: r => Some (rev r, x)
+  end.
